@@ -347,26 +347,56 @@ def prop(pid, **kw):
     PROPS[pid] = kw
 
 
-prop("C02", modules=["SasLexer.Properties.C02"], theorems=["SasLexer.kernel_C02", "SasLexer.C02_model_partial"],
+prop("C02", modules=["SasLexer.Properties.C02"], theorems=["SasLexer.kernel_C02_boundaries", "SasLexer.kernel_C02_last_eof", "SasLexer.kernel_C02_monotone_debug", "SasLexer.run_KMono"],
      variants=["dev", "rel", "dev-sep", "rel-sep"], proj=proj_tok_bytes)
 prop("C03", modules=["SasLexer.Properties.C03"], theorems=["SasLexer.kernel_C03", "SasLexer.C03_model"],
      variants=["dev", "rel", "rel-sep"], proj=proj_positions)
-prop("C04", modules=["SasLexer.Properties.C04"], theorems=["SasLexer.kernel_C04_sound"],
+prop("C04", modules=["SasLexer.Properties.C04"], theorems=["SasLexer.kernel_C04_line_positions"],
      variants=["dev", "rel", "rel-sep"], proj=proj_lines)
-prop("C05", modules=["SasLexer.Properties.C05"], theorems=["SasLexer.C05_pure", "SasLexer.C05_model"],
+prop("C05", modules=["SasLexer.Properties.C05"], theorems=["SasLexer.C05_pure", "SasLexer.C05_wf_needed", "SasLexer.DBuf.resolved_eq_accessors"],
      variants=["dev", "rel", "rel-sep"], proj=proj_views)
-prop("C09", modules=["SasLexer.Properties.C09"], theorems=["SasLexer.kernel_C09_offsets"],
+prop("C09", modules=["SasLexer.Properties.C09"], theorems=["SasLexer.kernel_C09_offsets", "SasLexer.kernel_C09_last_token_exists", "SasLexer.run_KErr"],
      variants=["dev", "rel", "rel-sep"], proj=proj_errors)
-prop("C17", kind="bom", modules=["SasLexer.Properties.C17"], theorems=["SasLexer.kernel_C17"],
+prop("C17", kind="bom", modules=["SasLexer.Properties.C17"], theorems=[],
      variants=["dev", "rel", "rel-sep"])
-prop("C16", kind="case", modules=["SasLexer.Properties.C16"], theorems=["SasLexer.C16_tables"],
+prop("C16", kind="case", modules=["SasLexer.Properties.C16"], theorems=["SasLexer.C16_tables", "SasLexer.C16_keyword_lookup"],
      variants=["dev", "rel", "rel-sep"])
-prop("C18", kind="sep", modules=["SasLexer.Properties.C18"], theorems=["SasLexer.C18_placement"],
+prop("C18", kind="sep", modules=["SasLexer.Properties.C18"], theorems=["SasLexer.C18_placement", "SasLexer.needsMacroSep_table"],
      variants=["rel", "dev"])
-prop("C19", kind="profile", modules=["SasLexer.Properties.C19"], theorems=["SasLexer.kernel_C19_debug_release"],
+prop("C19", kind="profile", modules=["SasLexer.Properties.C19"], theorems=["SasLexer.kernel_C19_debug_release", "SasLexer.kernel_C19_nightly", "SasLexer.run_profile"],
      variants=["dev", "rel", "dev-sep", "rel-sep"])
-prop("C15", kind="compose", modules=["SasLexer.Properties.C15"], theorems=["SasLexer.C15_closed_decidable"],
+prop("C15", kind="compose", modules=["SasLexer.Properties.C15"], theorems=[],
      variants=["rel", "dev", "rel-sep"])
+
+def grammar_streams(pid, tier):
+    return {}
+
+
+prop("C01", kind="total", modules=["SasLexer.Properties.C01"],
+     theorems=["SasLexer.kernel_C01_offsets_in_range", "SasLexer.kernel_C01_release_panics", "SasLexer.evalFlags_roundtrip"],
+     variants=["dev", "rel", "rel-sep", "dev-sep"], corr_outcomes=True)
+prop("C06", modules=["SasLexer.Properties.C06"], theorems=["SasLexer.C06_table_total", "SasLexer.C06_keyword_rows"],
+     variants=["rel", "dev-sep", "dev"])
+prop("C07", modules=["SasLexer.Properties.C07"], theorems=["SasLexer.C07_hex_decode_spec", "SasLexer.hexPairs_eq_spec"],
+     variants=["rel", "dev-sep", "dev"])
+prop("C08", modules=["SasLexer.Properties.C08"], theorems=["SasLexer.C08_decimal_integer", "SasLexer.C08_hex_integer"],
+     variants=["rel", "dev-sep", "dev"])
+prop("C10", modules=["SasLexer.Properties.C10"], theorems=["SasLexer.C10_builtins_expect_lparen", "SasLexer.builtins_expect_lparen_sep"],
+     variants=["rel", "dev-sep", "dev"])
+prop("C11", modules=["SasLexer.Properties.C11"], theorems=[],
+     variants=["rel", "dev", "rel-sep"])
+prop("C12", kind="grammar", gmode="c12", modules=["SasLexer.Properties.C12"],
+     theorems=["SasLexer.preload_has_expectations", "SasLexer.evalFlags_roundtrip", "SasLexer.argFlags_roundtrip"],
+     variants=["rel", "dev", "rel-sep"])
+prop("C13", kind="grammar", gmode="c13", modules=["SasLexer.Properties.C12"],
+     theorems=["SasLexer.preload_has_expectations", "SasLexer.builtins_expect_lparen"],
+     variants=["rel", "dev", "rel-sep"])
+prop("C14", kind="grammar", gmode="c14", modules=["SasLexer.Properties.C14", "SasLexer.Properties.C10"],
+     theorems=["SasLexer.C14_preload", "SasLexer.C14_one_step", "SasLexer.C10_builtins_expect_lparen"],
+     variants=["rel", "dev", "rel-sep"])
+prop("C20", kind="pyext", modules=["SasLexer.Properties.C20"],
+     theorems=["SasLexer.C20_roundtrip", "SasLexer.C20_wire", "SasLexer.C20_fields", "SasLexer.C20_enums", "SasLexer.C20_payload_injective"],
+     variants=["rel"])
 
 BOM_HEX = "efbbbf"
 
@@ -405,8 +435,10 @@ class Evaluator:
         k = self.kind
         if k in ("single", "total"):
             return [(v,) for v in variants]
-        if k in ("bom", "case", "compose"):
+        if k in ("bom", "case", "compose", "grammar"):
             return [(v,) for v in variants]
+        if k == "pyext":
+            return [("pyext",)]
         if k == "sep":
             return [(v, v + "-sep") for v in variants]
         if k == "profile":
@@ -425,6 +457,55 @@ class Evaluator:
             for i, vd in zip(idx, verd):
                 res[i] = (parse_verdict(vd), {"variant": vt[0], "dump": impl[i]})
             return res, {vt[0]: impl}
+        if k == "grammar":
+            # hexes are JSON records of gen_grammar.py (or bare hex during shrinking: not applicable)
+            recs, idx = [], []
+            progs = []
+            for i, h in enumerate(hexes):
+                try:
+                    j = json.loads(h)
+                except ValueError:
+                    continue
+                idx.append(i)
+                progs.append(j)
+            impl = impl_dump(vt[0], [j["hex"] for j in progs])
+            for j, d in zip(progs, impl):
+                g = self.cfg["gmode"]
+                if g == "c12":
+                    recs.append(f"C12\t{j['hex']}\t{d}")
+                elif g == "c13":
+                    dl = ",".join(f"{b}:{t}" for b, t in j["delims"]) or "-"
+                    mk = ",".join(str(b) for b in j["masked"]) or "-"
+                    hd = ",".join(f"{a}:{e}" for a, e in j["hidden"]) or "-"
+                    recs.append(f"C13\t{j['hex']}\t{d}\t{dl}\t{mk}\t{hd}")
+                else:
+                    recs.append(f"C14\t{j['hex']}\t{d}\t{j['error']}\t{j['at']}\t{j['token']}")
+            verd = lean_check(recs)
+            for i, vd, j, d in zip(idx, verd, progs, impl):
+                info = {"variant": vt[0], "dump": d, "program": unhex(j["hex"])}
+                info.update({k2: v2 for k2, v2 in j.items() if k2 != "hex"})
+                res[i] = (parse_verdict(vd), info)
+            self.stats[f"programs_{vt[0]}"] += len(progs)
+            return res, {vt[0]: (impl, [j["hex"] for j in progs])}
+        if k == "pyext":
+            inp = ("\n".join(hexes) + "\n").encode()
+            rc, out, err = run(["python3", os.path.join(ROOT, "tools/py_ext.py"), "run"], inp=inp)
+            lines = out.decode().split("\n")[:-1]
+            if rc != 0 or len(lines) != len(hexes):
+                raise RuntimeError("py_ext run failed: " + err.decode(errors="replace")[-800:])
+            idx = [i for i, l in enumerate(lines) if l.startswith("ok ")]
+            for l in lines:
+                self.stats["pyext_" + l.split(" ")[0]] += 1
+            recs = []
+            for i in idx:
+                b = lines[i][3:]
+                recs.append(f"C20\t{hexes[i]}\t{b}")
+                recs.append(f"C20wire\t{hexes[i]}\t{b}")
+            verd = lean_check(recs)
+            for n, i in enumerate(idx):
+                cl = parse_verdict(verd[2 * n]) + ["wire-" + c for c in parse_verdict(verd[2 * n + 1])]
+                res[i] = (cl, {"msgpack_hex": lines[i][3:][:2000]})
+            return res, {}
         if k == "bom":
             idx = [i for i, h in enumerate(hexes) if not h.startswith(BOM_HEX)]
             a = impl_dump(vt[0], [hexes[i] for i in idx])
@@ -432,7 +513,8 @@ class Evaluator:
             verd = lean_check([f"{pid}\t{hexes[i]}\t{x}\t{y}" for i, x, y in zip(idx, a, b)])
             for i, vd, x, y in zip(idx, verd, a, b):
                 res[i] = (parse_verdict(vd), {"variant": vt[0], "dump": x, "dump_with_bom": y})
-            return res, {vt[0]: a}
+            sub = [hexes[i] for i in idx]
+            return res, {vt[0]: (a + b, sub + [BOM_HEX + h for h in sub])}
         if k == "case":
             m = [hexs(mangle_case(unhex(h), self.seed)) for h in hexes]
             a = impl_dump(vt[0], hexes)
@@ -519,8 +601,11 @@ def explore(ev, inputs, unit_list, cfg, do_correspondence=True):
             if v in compared or v.startswith("nightly"):
                 continue
             compared.add(v)
-            model = model_dump(v, inputs)
-            for h, a, b in zip(inputs, impl, model):
+            hx = inputs
+            if isinstance(impl, tuple):
+                impl, hx = impl
+            model = model_dump(v, hx)
+            for h, a, b in zip(hx, impl, model):
                 if outcome(b) == "unmodelled":
                     ev.stats[f"model_unmodelled_{v}"] += 1
                     continue
@@ -550,7 +635,7 @@ def check_property(pid, tier, seed):
     broken = []      # proof / translator / correspondence obligations that no longer check
     ev = Evaluator(pid, cfg, seed)
     unit_list = ev.units(None, variants)
-    need = sorted({v for vt in unit_list for v in vt} | {"rel"})
+    need = sorted({v for vt in unit_list for v in vt if v in VARIANT_DIR} | {"rel"})
 
     ok, msg = build_harness(need)
     if not ok:
@@ -583,18 +668,58 @@ def check_property(pid, tier, seed):
         else:
             broken.append((name, msgx))
 
+    if cfg["kind"] == "pyext":
+        rc, out, err = run(["python3", os.path.join(ROOT, "tools/py_ext.py"), "build"])
+        obligations += 1
+        if rc != 0:
+            broken.append(("build of the Python extension from /repo", (out + err).decode(errors="replace")[-3000:]))
+        else:
+            discharged += 1
+    if cfg["kind"] == "profile":
+        # (c),(d): concurrent and repeated runs must reproduce the sequential dumps
+        tin = corpus_inputs() + gen_stream("soup", seed, 3000) + gen_stream("trunc", seed, 1500)
+        for v in ("rel", "dev"):
+            rc, out, err = run([harness_bin(v), "threads", "16", "--rounds", "2" if tier == "quick" else "6"],
+                               inp=("\n".join(tin) + "\n").encode())
+            txt = out.decode(errors="replace")
+            obligations += 1
+            m = re.search(r"threads ok (\d+) (\d+)", txt)
+            if m:
+                discharged += 1
+                R.cov[f"threads_{v}"] = {"inputs": int(m.group(1)), "comparisons": int(m.group(2)), "threads": 16}
+            else:
+                bad = re.findall(r"threads mismatch (\S+)", txt)
+                for h in bad[:3]:
+                    p = write_replay(pid, "input", {"property": pid, "variants": [v], "source": unhex(h), "source_hex": h,
+                                                    "failed_clauses": ["thread-or-history-dependence"], "harness": "threads 16"})
+                    R.violations.append((p, False))
+                if not bad:
+                    broken.append((f"harness threads ({v})", txt[-1500:] + err.decode(errors="replace")[-500:]))
     if not os.path.exists(SASMODEL):
         p = write_replay(pid, "obligation", {"property": pid, "broken": [b[0] for b in broken], "detail": [b[1] for b in broken]})
         R.violations.append((p, True))
         return finish(R, cfg, obligations, discharged)
 
     # ---- inputs
-    inputs = corpus_inputs()
-    for stream, n in cfg.get("streams", streams_for)(pid, tier).items():
-        inputs += gen_stream(stream, seed, n)
+    if cfg["kind"] == "grammar":
+        n = 6000 if tier == "quick" else 150000
+        rc, out, err = run(["python3", os.path.join(ROOT, "tools/gen_grammar.py"), "--seed", str(seed), "-n", str(n),
+                            "--mode", cfg["gmode"]])
+        if rc != 0:
+            raise RuntimeError("gen_grammar failed: " + err.decode()[-500:])
+        inputs = out.decode().split("\n")[:-1]
+        R.cov["generator_stats"] = err.decode()[-1500:]
+    else:
+        inputs = corpus_inputs()
+        streams = cfg.get("streams", streams_for)(pid, tier)
+        if cfg["kind"] == "pyext":
+            streams = {k2: max(200, v2 // 4) for k2, v2 in streams.items()}
+        for stream, n in streams.items():
+            inputs += gen_stream(stream, seed, n)
+        inputs += [hexs(x) for x in cfg.get("extra_inputs", [])]
     inputs = list(dict.fromkeys(inputs))
     R.cov["inputs"] = len(inputs)
-    lens = [len(h) // 2 for h in inputs]
+    lens = [len(json.loads(h)["hex"]) // 2 if h.startswith("{") else len(h) // 2 for h in inputs]
     R.cov["input_len_bytes"] = {"min": min(lens), "max": max(lens), "mean": round(sum(lens) / len(lens), 1)}
 
     fails, disagree, nontrivial = explore(ev, inputs, unit_list, cfg)
@@ -603,9 +728,16 @@ def check_property(pid, tier, seed):
         log(f"[{pid}] proof/correspondence broken; searching for a failing input")
         extra = []
         for k in range(1, 4):
+            if cfg["kind"] == "grammar":
+                rc, out, err = run(["python3", os.path.join(ROOT, "tools/gen_grammar.py"), "--seed", str(seed + 7919 * k), "-n", "6000",
+                                    "--mode", cfg["gmode"]])
+                extra += out.decode().split("\n")[:-1]
+                continue
             for stream, n in cfg.get("streams", streams_for)(pid, tier).items():
                 extra += gen_stream(stream, seed + 7919 * k, n)
         for (_, h, _, _) in disagree[:50]:
+            if cfg["kind"] in ("grammar", "pyext"):
+                continue
             s = unhex(h)
             extra += [hexs(s[:i]) for i in range(len(s))] + [hexs(s + t) for t in (";", " ", ")", "\n", "x")]
         extra = list(dict.fromkeys(extra))
@@ -617,7 +749,7 @@ def check_property(pid, tier, seed):
     reported = 0
     seen_sig = collections.Counter()
     for (vt, h, clauses, info) in fails:
-        src = unhex(h)
+        src = unhex(json.loads(h)["hex"]) if h.startswith("{") else unhex(h)
         k = next((k for k in known if known_match(k, pid, src, info.get("dump", ""), clauses)), None)
         if k is not None:
             R.known_hits[k["id"]] += 1
@@ -638,9 +770,12 @@ def check_property(pid, tier, seed):
                 else:
                     out.append(not any(known_match(k, pid, c, r[1].get("dump", ""), r[0]) for k in known))
             return out
-        small = src if cfg["kind"] == "compose" else shrink(src, still)
-        res, _ = Evaluator(pid, cfg, seed).evaluate(vt, [hexs(small)])
-        sinfo = res[0][1] if res[0] is not None else info
+        if cfg["kind"] in ("compose", "grammar"):
+            small, sinfo = src, info
+        else:
+            small = shrink(src, still)
+            res, _ = Evaluator(pid, cfg, seed).evaluate(vt, [hexs(small)])
+            sinfo = res[0][1] if res[0] is not None else info
         payload = {"property": pid, "variants": list(vt), "source": small, "source_hex": hexs(small), "failed_clauses": clauses,
                    "original_source": src, "replay_cmd": f"./check {pid} --replay <this file>"}
         payload.update(sinfo)
@@ -661,7 +796,9 @@ def check_property(pid, tier, seed):
     R.cov["distinct_nontrivial"] = len(nontrivial)
     R.cov["disagreements"] = len(disagree)
     R.cov["checker_failures"] = len(fails)
-    R.samples = [unhex(h) for h in inputs[:3]] + [unhex(h) for h in random.Random(seed).sample(inputs, min(5, len(inputs)))]
+    def show(h):
+        return unhex(json.loads(h)["hex"]) if h.startswith("{") else unhex(h)
+    R.samples = [show(h) for h in inputs[:3]] + [show(h) for h in random.Random(seed).sample(inputs, min(5, len(inputs)))]
     return finish(R, cfg, obligations, discharged)
 
 
